@@ -22,8 +22,8 @@ CHECKS = {
    text="Differential check of every file written in seeded histories against an independent implementation of the published v2 layout, plus a golden corpus. Every third run lays the content out with an independent encoder (layouts the current writer never produces) and the real code must read and continue it; one run in 96 writes and re-reads a free list of more than 65535 entries in-system.",
    tech="deterministic simulation: seeded histories decoded by an independent v2 reader"),
 
- "C01": dict(engine="crashsim", cat="fault_enumeration", ref="DESIGN.md §6 C01",
-   text="Crash points are enumerated per recorded history (after every I/O call and inside writes) and crossed with persisted subsets of the unsynced units (complete for small windows, structured samples otherwise); each crash image is judged by the independent decoder and by real recovery plus a follow-up commit. Histories are sampled. Round 3: histories with a multi-page free list, histories ending in a commit with a failing sync (an acknowledged commit must survive), commit failures in the middle of a history, read-only inspection of crash images before recovery, the end of the history as a crash point.",
+ "C01": dict(engine="crashsim+schedsim", cat="fault_enumeration", ref="DESIGN.md §6 C01, §11.9",
+   text="Crash points are enumerated per recorded history (after every I/O call and inside writes) and crossed with persisted subsets of the unsynced units (complete for small windows, structured samples otherwise); each crash image is judged by the independent decoder and by real recovery plus a follow-up commit. Histories are sampled. Round 3: histories with a multi-page free list, histories ending in a commit with a failing sync (an acknowledged commit must survive), commit failures in the middle of a history, read-only inspection of crash images before recovery, the end of the history as a crash point; every fourth run builds crash states from the I/O log of a multi-writer run under the token scheduler.",
    tech="deterministic simulation with fault injection: shadow-disk crash-state enumeration (crash point x persisted subset), decoder + real recovery oracle"),
  "C06": dict(engine="crashsim", cat="exploration", ref="DESIGN.md §6 C06",
    text="Invariant monitored on every pwrite of every seeded history: the written page range must not intersect the page sets of the newest committed version, of any open reader's version, or the newest meta slot. A sixth of the sequential histories contain a commit failure (data write, data sync, torn meta write) whose aftermath the monitor judges.",
